@@ -2,12 +2,16 @@
 package c14
 
 import (
+	"bufio"
 	"bytes"
 	"context"
 	"fmt"
+	"html"
 	"io"
 	"net/http"
 	"net/http/httptest"
+	"net/url"
+	"regexp"
 	"runtime"
 	"sort"
 	"strings"
@@ -89,8 +93,8 @@ func genBanner(t *rapid.T) BannerCase {
 		FetchMode:   rapid.SampledFrom([]string{"", "", "navigate", "nested-navigate", "cors"}).Draw(t, "mode"),
 		FetchDest:   rapid.SampledFrom([]string{"", "", "document", "iframe", "script"}).Draw(t, "dest"),
 		Host:        rapid.SampledFrom([]string{"app.example", "app.example:8443"}).Draw(t, "host"),
-		Path:        rapid.SampledFrom([]string{"/", "/page", "/a/b.html", "/x%20y", "/q", "/a//b.html", "/a/./b", "/a/../b.html"}).Draw(t, "path"),
-		Query:       rapid.SampledFrom([]string{"", "a=1", "next=%2Fhome&x=<y>"}).Draw(t, "query"),
+		Path:        rapid.SampledFrom([]string{"/", "/page", "/a/b.html", "/x%20y", "/q", "/a//b.html", "/a/./b", "/a/../b.html", "//evil.example/login", "//evil.example"}).Draw(t, "path"),
+		Query:       rapid.SampledFrom([]string{"", "a=1", "next=%2Fhome&x=<y>", "q=1&amp;lang=en", "q=\"><script>alert(1)</script>", "a=&quot;b"}).Draw(t, "query"),
 		Status:      rapid.SampledFrom([]int{200, 200, 200, 201, 204, 301, 304, 404, 500}).Draw(t, "status"),
 		Disposition: rapid.SampledFrom(dispositions).Draw(t, "disp"),
 		Explicit:    rapid.Bool().Draw(t, "explicit"),
@@ -183,7 +187,11 @@ func (c *BannerCase) request() *http.Request {
 	if c.Query != "" {
 		uri += "?" + c.Query
 	}
-	r := httptest.NewRequest(c.Method, "http://"+c.Host+uri, nil)
+	// parsed from the wire, as the agent parses the request it fetched: the URL holds path and query only
+	r, err := http.ReadRequest(bufio.NewReader(strings.NewReader(c.Method + " " + uri + " HTTP/1.1\r\nHost: " + c.Host + "\r\n\r\n")))
+	if err != nil {
+		r = httptest.NewRequest(c.Method, "http://"+c.Host+"/unparsable", nil)
+	}
 	r.Host = c.Host
 	if c.Accept != "" {
 		r.Header.Set("Accept", c.Accept)
@@ -322,13 +330,28 @@ func runBanner(c *BannerCase) vh.Outcome {
 	// the banner frame was served
 	o.Classes = append(o.Classes, "frame-served")
 	body := string(got.body)
-	uri := c.request().URL.String()
 	if !strings.Contains(body, bannerHTML) {
 		o.Err = fmt.Errorf("frame page does not contain the banner")
 		return o
 	}
-	if !strings.Contains(body, `src="`+uri+`"`) {
-		o.Err = fmt.Errorf("frame page does not embed the requested URL %q: %q", uri, body)
+	// the frame's src attribute, read the way a browser reads it (character references decoded, resolved against the
+	// URL of the page), must be the requested URL: same host, same path and query
+	m := regexp.MustCompile(`<iframe[^>]* src="([^"]*)"`).FindStringSubmatch(body)
+	if m == nil {
+		o.Err = fmt.Errorf("frame page has no iframe with a src attribute: %q", body)
+		return o
+	}
+	base := &url.URL{Scheme: "http", Host: c.Host, Path: "/"}
+	ref, perr := url.Parse(html.UnescapeString(m[1]))
+	// (both sides go through the same resolution, so that dot segments a browser would remove are not held against the page)
+	ru := c.request().URL
+	want := base.ResolveReference(&url.URL{Path: ru.Path, RawPath: ru.RawPath, RawQuery: ru.RawQuery}).String()
+	if perr != nil || base.ResolveReference(ref).String() != want {
+		resolved := ""
+		if perr == nil {
+			resolved = base.ResolveReference(ref).String()
+		}
+		o.Err = fmt.Errorf("the frame page for %s embeds src=\"%s\", which a browser resolves to %q, not to the requested URL", want, m[1], resolved)
 		return o
 	}
 	cc := strings.ToLower(got.hdr.Get("Cache-Control"))
